@@ -115,3 +115,140 @@ func c12qualified(p *AllProject, r *rbT, file string, src []byte, line, col int,
 		}
 	}
 }
+
+// C12-c: the same agreement at the keys of member chains (t.a.k): tables nested in constructors or built
+// by assignments, two sub-tables carrying the same final key, key names over {a,b} (equal names make the
+// two chains the same member).
+var c12mTemplates = []string{
+	/* 0 */ "local t = { \x01 = { k = 1 }, \x02 = { k = 2 } }\nq = t.\x01.k\nr = t.\x02.k\n",
+	/* 1 */ "g = {}\ng.\x01 = {}\ng.\x02 = {}\ng.\x01.k = 1\ng.\x02.k = 2\nq = g.\x01.k\nr = g.\x02.k\n",
+	/* 2 */ "local t = { \x01 = { \x03 = { k = 1 } }, \x02 = { \x03 = { k = 2 } } }\nq = t.\x01.\x03.k\nr = t.\x02.\x03.k\n",
+	/* 3 */ "local t = {}\nt.\x01 = 1\nt.\x02 = 2\nq = t.\x01 + t.\x02\n",
+	/* 4 */ "local t = { \x01 = 1 }\nlocal u = { \x02 = 2 }\nq = t.\x01 + u.\x02\n",
+}
+
+func VerifRun_C12c() {
+	ti := verifConcretize(verifRange("template", verifParam("TMIN"), verifParam("TMAX")))
+	t := c12mTemplates[ti]
+	if verifParam("LAYOUTS") > 1 && verifConcretize(verifRange("layout", 0, 1)) == 1 {
+		t = vpOneLine(t)
+	}
+	src := []byte(t)
+	var names [10]byte
+	var have [10]bool
+	for i, c := range src {
+		if c >= 1 && c <= 9 {
+			if !have[c] {
+				names[c] = verifByteIn("n"+string([]byte{'0' + c}), "ab")
+				have[c] = true
+			}
+			src[i] = names[c]
+		}
+	}
+	if ti == 0 || ti == 2 {
+		verifAssume(names[1] != names[2]) // a constructor with a duplicate key has no single declaration of that key
+	}
+	file := "/w/a.lua"
+	p, _ := vpProject([]string{file}, [][]byte{src})
+	line, col := 1, 0
+	for i := 0; i < len(src); i++ {
+		// a member key: one letter directly after a dot
+		if i >= 1 && t[i-1] == '.' {
+			for end := 0; end <= 1; end++ {
+				c12member(p, file, src, line, col+end, string(src[i:i+1]))
+			}
+		}
+		if src[i] == '\n' {
+			line++
+			col = 0
+		} else {
+			col++
+		}
+	}
+	verifReach("done")
+}
+
+// c12braceDepth: how many table constructors enclose the position (1-based line, 0-based column)
+func c12braceDepth(src []byte, line, col int) int {
+	ls := vpLineStarts(src)
+	if line < 1 || line > len(ls) {
+		return 0
+	}
+	d := 0
+	for i := 0; i < ls[line-1]+col && i < len(src); i++ {
+		if src[i] == '{' {
+			d++
+		} else if src[i] == '}' {
+			d--
+		}
+	}
+	return d
+}
+
+func c12member(p *AllProject, file string, src []byte, line, col int, name string) {
+	vs, ok := c12query(src, line, col)
+	if !ok {
+		verifViolation("", "a member key position is not accepted as a query")
+		return
+	}
+	vs1, vs2, vs3, vs4 := vs, vs, vs, vs
+	def := p.FindVarDefineInfo(file, &vs1)
+	refs := p.FindReferences(file, &vs2, common.CRSReference)
+	high := p.FindReferences(file, &vs3, common.CRSHighlight)
+	verifReach("position")
+	for _, rf := range refs {
+		if rf.StrFile != file {
+			continue
+		}
+		q, okq := c12query(src, rf.Loc.StartLine, rf.Loc.StartColumn)
+		if !okq {
+			verifViolation("", "a location returned by references is not an identifier position")
+			continue
+		}
+		dq := p.FindVarDefineInfo(file, &q)
+		if !c12sameDefs(dq, def) {
+			class := ""
+			if len(dq) == 0 && c12braceDepth(src, rf.Loc.StartLine, rf.Loc.StartColumn) >= 3 {
+				class = "C12-deep-constructor-key"
+			}
+			verifViolation(class, "a location returned by references of a member resolves to a different definition than the query position")
+			break
+		}
+	}
+	if len(def) == 1 && def[0].StrFile == file {
+		q, okq := c12query(src, def[0].Loc.StartLine, def[0].Loc.StartColumn)
+		if okq {
+			rd := p.FindReferences(file, &q, common.CRSReference)
+			if !c12has(rd, file, line, col, col+1) && !c12has(rd, file, line, col-1, col) {
+				class := ""
+				if len(rd) == 0 && c12braceDepth(src, def[0].Loc.StartLine, def[0].Loc.StartColumn) >= 3 {
+					class = "C12-deep-constructor-key"
+				}
+				verifViolation(class, "a member position is not among the references of its own definition")
+			}
+		}
+	}
+	same := true
+	n := 0
+	for _, rf := range refs {
+		if rf.StrFile == file {
+			n++
+			if !c12has(high, file, rf.Loc.StartLine, rf.Loc.StartColumn, rf.Loc.EndColumn) {
+				same = false
+			}
+		}
+	}
+	if n != len(high) {
+		same = false
+	}
+	if !same {
+		verifViolation("", "document highlight of a member differs from its references in the same file")
+	}
+	label, _, _ := p.GetLspHoverVarStr(file, &vs4)
+	if len(def) == 1 {
+		verifReach("hover")
+		if !strings.Contains(label, name) {
+			verifViolation("", "hover label does not contain the member under the cursor")
+		}
+	}
+}
